@@ -969,6 +969,49 @@ func parseLayers(j judge, tier string) []Layer {
 				},
 			})
 		}
+		// C4: fmt.Sscanf with every verb the Scanner accepts: the verb must not change how the text is read
+		// (math/big's Float.Scan ignores it: the base is always detected from the text)
+		{
+			texts := []string{"101", "-110.01", "12.5", "0x10", "1_000", "0b11", "0o17", "1e3", "7", "0.001", "+Inf", "1p4", "0x1.8p1"}
+			verbs := []string{"%v", "%b", "%e", "%E", "%f", "%F", "%g", "%G", "%x", "%X", "%s", "%d"}
+			layers = append(layers, Layer{
+				Name:   "C4-sscanf-verbs",
+				Units:  len(texts),
+				Bounds: fmt.Sprintf("fmt.Sscanf of %d texts (decimal, prefixed, separated, p-exponent, Inf) with each of the verbs %v: same success/failure, same number of items and same value as fmt.Sscanf into a *big.Float, and (on success) as Parse(text, 0)", len(texts), verbs),
+				Run: func(c *Ctx, u int) {
+					s := texts[u]
+					for _, vb := range verbs {
+						if c.Skip() {
+							continue
+						}
+						z := fresh(40, ToNearestEven)
+						f := new(big.Float).SetPrec(200)
+						var n1, n2 int
+						var e1, e2 error
+						pv, _ := protect(func() { n1, e1 = fmt.Sscanf(s, vb, z) })
+						n2, e2 = fmt.Sscanf(s, vb, f)
+						key := fmt.Sprintf("Sscanf(%q, %q)", s, vb)
+						c.NonTrivial()
+						if pv != nil {
+							c.Fail(key, fmt.Sprintf("panic: %v", pv))
+							continue
+						}
+						if (e1 == nil) != (e2 == nil) || n1 != n2 {
+							c.Fail(key, fmt.Sprintf("Decimal: n=%d err=%v; big.Float: n=%d err=%v", n1, e1, n2, e2))
+							continue
+						}
+						if e1 == nil {
+							ref := fresh(40, ToNearestEven)
+							if _, _, err := ref.Parse(s, 0); err != nil {
+								c.Fail(key, "Sscanf accepted a text that Parse(·, 0) rejects: "+err.Error())
+							} else if a, b := Observe(z), Observe(ref); a.Form != b.Form || a.Neg != b.Neg || (a.Form == fFinite && !a.Val().Equal(b.Val())) {
+								c.Fail(key, fmt.Sprintf("scanned %s, Parse(text, 0) gives %s", a.Val(), b.Val()))
+							}
+						}
+					}
+				},
+			})
+		}
 	}
 	return layers
 }
